@@ -7,7 +7,11 @@ use crate::proto::Proto;
 use crate::runner::*;
 
 pub mod c01;
+pub mod c02;
 pub mod c03;
+pub mod c04;
+pub mod c05;
+pub mod c06;
 
 pub type RunFn = fn(&RunCfg) -> (Outcome, EvidenceExtra);
 pub type ReplayFn = fn(&RunCfg, &'static dyn Proto, &Value) -> Result<CaseResult, Inconclusive>;
@@ -24,6 +28,10 @@ macro_rules! replay_fn {
 pub fn registry() -> Vec<(&'static str, RunFn, ReplayFn)> {
     vec![
         ("C01", c01::run as RunFn, replay_fn!(c01)),
+        ("C02", c02::run as RunFn, replay_fn!(c02)),
         ("C03", c03::run as RunFn, replay_fn!(c03)),
+        ("C04", c04::run as RunFn, replay_fn!(c04)),
+        ("C05", c05::run as RunFn, replay_fn!(c05)),
+        ("C06", c06::run as RunFn, replay_fn!(c06)),
     ]
 }
